@@ -1041,6 +1041,11 @@ def size_rules_for(chk, db, fn, k, R, winfo):
             sizes = [it for it in view if it[0] == 'SIZE' and it is not (lens[0] if lens else None)]
             if (len(sizes) != 1 or not sizes[0][5].in_loop) and not (k.kind == 'ARR' and k.n == 0 and not sizes):
                 why.append('expected one element Size per iteration')
+            elif k.kind == 'LB' and cnt is not None:
+                # the sum runs over exactly the elements the writer emits (value.size() of them - also for unbounded buffers)
+                lb = loop_bound(fn, cnt, full, whole=cnt, db=db)
+                if not lb[0]:
+                    why.append('element sizes are not summed over the writer\'s element count: ' + lb[1])
         chk.decide(not why, R('SZ'), where, '%s: %s' % (label, '; '.join(why) if why else 'prefix + Size(len) + payload, same length expression as the writer'),
                    function=flabel)
     elif k.kind == 'HANDLE':
@@ -1102,6 +1107,53 @@ def size_rules(chk, db, prefix=''):
                 pass
         if k.kind in ('VEC', 'ARR', 'STR', 'MAP', 'PAIR', 'TUPLE', 'STRUCT', 'LB', 'HANDLE'):
             size_rules_for(chk, db, fn, k, R, winfo)
+        elif k.kind in ('OPTIONAL', 'RESULT', 'VARIANT') and w is not None:
+            wrapper_size_rule(chk, db, fn, w, k, R)
+
+
+def _value_preds(p):
+    """{text of a pure predicate on the value: sense} for the conditions of a path that test the value's state"""
+    out = {}
+    for c, sense in p.conds:
+        txt = repr(c)
+        if 'p:value' in txt and not isinstance(c, Cmp):
+            out[txt] = sense
+        elif 'p:value' in txt and isinstance(c, Cmp):
+            out[repr(c.p)] = (c.op, sense)
+    return out
+
+
+def wrapper_size_rule(chk, db, fn, w, k, R):
+    """sum types (optional, result, variant): for every state of the value Size() counts the prefix once and sizes exactly the
+    components the writer emits in that state.  States are compared through the paths' predicates on the value: a Size path
+    and a writer path describe the same state when none of their shared predicates disagree."""
+    label = 'Encoding<%s>::Size' % short_t(fn['recargs'][0])
+    where = site(fn, '<%s>' % short_t(fn['recargs'][0]))
+    try:
+        spaths = paths_of(db, fn)
+        wpaths = [p for p in paths_of(db, w) if is_success(p)]
+    except symx.Unsupported as e:
+        chk.unanalysable(R('SZ'), where, 'cannot summarise %s: %s' % (label, e))
+        return
+    why = []
+    for sp in spaths:
+        sv = io_view(sp)
+        sized = sorted(it[1] for it in sv if it[0] == 'SIZE')
+        visits_s = len([e for e in sp.events if e.kind == 'call' and e.name == 'Visit'])
+        spred = _value_preds(sp)
+        for wp in wpaths:
+            wpred = _value_preds(wp)
+            if any(kk in spred and spred[kk] != vv for kk, vv in wpred.items()):
+                continue        # different state of the value
+            wv = io_view(wp)
+            written = sorted(it[1] for it in wv if it[0] in ('ENC', 'PAYLOAD'))
+            visits_w = len([e for e in wp.events if e.kind == 'call' and e.name == 'Visit'])
+            if sized != written or visits_s != visits_w:
+                why.append('in the state %s the writer emits %s%s but Size() counts %s%s' % (
+                    sorted('%s=%s' % (a.replace('p:value.', ''), b) for a, b in {**wpred, **spred}.items())[:3], [short_t(x) for x in written],
+                    ' + visited element' if visits_w else '', [short_t(x) for x in sized], ' + visited element' if visits_s else ''))
+    chk.decide(not why, R('SZ'), where, '%s: %s' % (label, '; '.join(sorted(set(why))[:2]) if why else
+                                                    'in every state of the value the sized components are the ones the writer emits'), function=ir.fn_label(fn))
 
 
 class _Quiet:
